@@ -1,6 +1,6 @@
 """C20 — the wire protocol carries every message intact and rejects garbage."""
 import re
-from axvlib import core
+from axvlib import core, sig
 from axvlib.core import AnchorMissing, op_local, op_const, enum_switches, int_switches, dominated
 from . import common as K
 
@@ -255,3 +255,43 @@ def check(cx):
                     "a decode-error path leaves the loop through bb%s without send_response" % sorted(leaves)[:3]
         cx.verdict(good, r6, "decode-error-answered", fl.where(), detail,
                    "an undecodable request frame is dropped without a protocol error being sent (%s) (D16)" % detail)
+
+
+    # ---- C20.7 field-sequence signatures ---------------------------------------------------------------------------
+    r7 = cx.rule("C20.7", "SIG: per variant, the sequence of wire items written by to_bytes after the opcode/status byte "
+                 "(u32le/u64le/f64le/str32, repetitions by loop nesting) equals the sequence consumed by the from_bytes arm "
+                 "that the opcode/status tables route it to", floor=24)
+    SF = {"tcp::write_string", "tcp::read_string", "tcp::read_string_with_len"}
+    ft, ff = p.fns.get(REQ + "::to_bytes"), p.fns.get(REQ + "::from_bytes")
+    if ft and ff:
+        sw = [x for x in enum_switches(p, ft) if x[1] == REQ]
+        isw = list(int_switches(ff, "u8"))
+        if sw and isw:
+            bi, t = max(isw, key=lambda x: len(x[1]["targets"]))
+            rd_t = {val: tgt for val, tgt in t["targets"]}
+            for v, tgt in sw[0][2].items():
+                ws = sig.signature(ft, tgt, dominated(ft, tgt), "w", SF)
+                ops = [x[1] for x in pushed_consts(ft, dominated(ft, tgt)) if x[0] == "byte"]
+                if len(ops) != 1 or ops[0] not in rd_t:
+                    cx.bad(r7, "Request::" + v, ft.where(), "no unique opcode/decoder arm")
+                    continue
+                rs = sig.signature(ff, rd_t[ops[0]], dominated(ff, rd_t[ops[0]]), "r", SF)
+                body = ws[2:].strip() if ws.startswith("u8") else ws
+                cx.verdict(body == rs, r7, "Request::" + v, ft.where(), "both sides: <%s>" % body,
+                           "Request::%s is written as <%s> but read as <%s>" % (v, body, rs))
+    gt, gf = p.fns.get(RESP + "::to_bytes"), p.fns.get(RESP + "::from_bytes")
+    if gt and gf:
+        sw = [x for x in enum_switches(p, gt) if x[1] == RESP]
+        sw2 = [x for x in enum_switches(p, gf) if x[1] == SC]
+        if sw and sw2:
+            for v, tgt in sw[0][2].items():
+                ws = sig.signature(gt, tgt, dominated(gt, tgt), "w", SF)
+                scs = [x[1] for x in pushed_consts(gt, dominated(gt, tgt)) if x[0] == "status"]
+                if len(set(scs)) != 1 or scs[0] not in sw2[0][2]:
+                    cx.bad(r7, "Response::" + v, gt.where(), "no unique status/decoder arm")
+                    continue
+                rt = sw2[0][2][scs[0]]
+                rs = sig.signature(gf, rt, dominated(gf, rt), "r", SF)
+                body = ws[2:].strip() if ws.startswith("u8") else ws
+                cx.verdict(body == rs, r7, "Response::" + v, gt.where(), "both sides: <%s>" % body,
+                           "Response::%s is written as <%s> but read as <%s>" % (v, body, rs))
